@@ -7,6 +7,7 @@ import (
 	"fmt"
 	"os"
 	"path/filepath"
+	"regexp"
 	"sort"
 	"strings"
 	"time"
@@ -50,9 +51,17 @@ type RuleResult struct {
 	Info         []string      `json:"info,omitempty"`
 }
 
+var addrRE = regexp.MustCompile(`@0x[0-9a-f]+`)
+
 // Add appends an obligation.
 func (r *RuleResult) Add(o Obligation) {
 	o.Rule = r.ID
+	// SSA values without a canonical access path are rendered with their address;
+	// keys and texts must be the same from run to run
+	o.What = addrRE.ReplaceAllString(o.What, "")
+	o.Key = addrRE.ReplaceAllString(o.Key, "")
+	o.Detail = addrRE.ReplaceAllString(o.Detail, "")
+	o.By = addrRE.ReplaceAllString(o.By, "")
 	if o.Key == "" {
 		o.Key = r.ID + "|" + o.Func + "|" + o.What
 	} else if !strings.HasPrefix(o.Key, r.ID+"|") {
